@@ -315,21 +315,21 @@ func (x *Exec) builtin(f *Frame, st *State, b *ssa.Builtin, info *CallInfo) []ca
 				return single(st, SelField(v, 0))
 			case v.Sort == SStr:
 				l := UF("str_len", SInt, v)
-				st.assume(Ge(l, IntLit(0)))
+				st.assume(lenRange(l))
 				st.assume(Eq(UF("str_len", SInt, StrEmpty), IntLit(0)))
 				return single(st, l)
 			case v.Sort == SBytes:
 				l := UF("bytes_len", SInt, v)
-				st.assume(Ge(l, IntLit(0)))
+				st.assume(lenRange(l))
 				st.assume(Eq(UF("bytes_len", SInt, BytesNil), IntLit(0)))
 				return single(st, l)
 			case v.Sort == SCoins:
 				l := UF("coins_len", SInt, v)
-				st.assume(Ge(l, IntLit(0)))
+				st.assume(lenRange(l))
 				return single(st, l)
 			case isMapSort(v.Sort):
 				l := UF("map_len<"+v.Sort.Name+">", SInt, v)
-				st.assume(Ge(l, IntLit(0)))
+				st.assume(lenRange(l))
 				return single(st, l)
 			}
 		case *GoSlice:
@@ -337,7 +337,7 @@ func (x *Exec) builtin(f *Frame, st *State, b *ssa.Builtin, info *CallInfo) []ca
 		case *EncVal:
 			// len(bz) == 0 <=> nil (A-CODEC: stored encodings are non-empty)
 			l := x.freshTerm("enclen", SInt)
-			st.assume(Ge(l, IntLit(0)))
+			st.assume(lenRange(l))
 			st.assume(Eq(Eq(l, IntLit(0)), v.Nil))
 			return single(st, l)
 		case *BufVal:
@@ -349,7 +349,7 @@ func (x *Exec) builtin(f *Frame, st *State, b *ssa.Builtin, info *CallInfo) []ca
 		case *MapRef:
 			cur := st.mem[v.Obj].(*Term)
 			l := UF("map_len<"+cur.Sort.Name+">", SInt, cur)
-			st.assume(Ge(l, IntLit(0)))
+			st.assume(lenRange(l))
 			return single(st, l)
 		case *NilPtr:
 			return single(st, IntLit(0))
@@ -578,7 +578,7 @@ func (x *Exec) applyContract(f *Frame, st *State, fn *ssa.Function, c *Contract,
 	// pointer params: havoc pointees when contract says "modifies *param"
 	for i, p := range fn.Params {
 		for _, m := range c.Modifies {
-			if m == "*"+p.Name() {
+			if m == "*"+p.Name() || m == "*"+c.paramAlias(fn, i) {
 				if pv, ok := args[i].(*PtrVal); ok {
 					if cur, ok := st.mem[pv.Obj].(*Term); ok {
 						st.mem[pv.Obj] = x.freshTerm("mod_"+p.Name(), cur.Sort)
